@@ -23,12 +23,14 @@ ASSUMPTIONS = [
     "trailing blanks or trailing backslash; doc-string lines without trailing blanks; no characters that str.splitlines() splits on)",
     "expected step keyword/type/name are those of the alias that was WRITTEN (longest match)",
     "'* ' is type-less: it inherits the previous step's type (given when there is none)",
+    "under BEHAVE_STRIP_STEPS_WITH_TRAILING_COLON=yes a step has ONE argument section (a doc-string followed by a table behind the same "
+    "step loses one colon per section; the documents say 'the trailing colon' and nothing about that shape, so it is not generated there)",
 ]
-REQUIRED = {"parse.faithful": {"quick": 1500, "thorough": 100000}, "alias.recognised": {"quick": 1700, "thorough": 1700},
+REQUIRED = {"parse.faithful": {"quick": 1200, "thorough": 80000}, "option.strip_trailing_colon": {"quick": 250, "thorough": 15000}, "option.strip_trailing_colon_process": 5, "alias.recognised": {"quick": 1700, "thorough": 1700},
             "parse_file.language_header": {"quick": 80, "thorough": 2000}, "fragment.steps": {"quick": 300, "thorough": 15000},
             "fragment.scenario": {"quick": 300, "thorough": 15000}, "fragment.rule": {"quick": 100, "thorough": 5000},
             "fragment.tags": {"quick": 300, "thorough": 15000}}
-REQUIRED_SEEN = {"language": 80, "file_form": ["lf", "crlf", "bom", "bom+crlf", "cr", "big"]}
+REQUIRED_SEEN = {"strip_trailing_colon": ["single", "double"], "language": 80, "file_form": ["lf", "crlf", "bom", "bom+crlf", "cr", "big"]}
 EXHAUSTIVE = True
 EXHAUSTIVE_SCOPE = "all 80 languages x every alias of every keyword (one document each); layouts and trees are sampled"
 NSHARDS = {"quick": 16, "thorough": 16}
@@ -201,12 +203,28 @@ def count_elems(a):
     return n
 
 
-def check_doc(mon, lab, lang, kws, rng, layout, monitor="parse.faithful", force_alias=None, via_file=False, sample=False):
+def all_step_lists(c):
+    if c.get("background"):
+        yield c["background"]["steps"]
+    for it in c.get("items", []):
+        if it["kind"] == "rule":
+            for x in all_step_lists(it):
+                yield x
+        else:
+            yield it["steps"]
+
+
+def check_doc(mon, lab, lang, kws, rng, layout, monitor="parse.faithful", force_alias=None, via_file=False, sample=False, strip_colon=False):
     gen = DocGen(rng, lang, kws, force_alias=force_alias)
     a = gen.feature()
     if force_alias and force_alias[0] in STEP_TYPES:
         ensure_alias_used(a, gen, force_alias)
     expected_step_types(a, kws)
+    if strip_colon:
+        for sl in all_step_lists(a):
+            for st in sl:
+                if st.get("doc") is not None and st.get("table") is not None:
+                    del st["table"]          # (see ASSUMPTIONS: one argument section per step under this switch)
     text, lines = render_feature(a, rng, layout, language_header=(lang if via_file else None))
     if via_file and rng.random() < 0.5:
         # the language comment may follow blank / comment lines at the top of the file
@@ -214,7 +232,26 @@ def check_doc(mon, lab, lang, kws, rng, layout, monitor="parse.faithful", force_
         text = "\n".join(pre) + "\n" + text
         lines = {k: v + len(pre) for k, v in lines.items()}
     case = {"lang": lang, "text": text, "force_alias": list(force_alias) if force_alias else None, "via_file": via_file}
-    mon.case(text, count_elems(a) >= 3)
+    from behave import parser as P
+    saved_strip = P.Parser.__dict__.get("STRIP_STEPS_WITH_TRAILING_COLON")
+    if strip_colon:
+        # the documented switch BEHAVE_STRIP_STEPS_WITH_TRAILING_COLON=yes (read into this parser attribute at import): a step that
+        # announces its table / doc-string with a colon loses THAT colon -- one, and only in front of a table / doc-string
+        for sl in all_step_lists(a):
+            for st in sl:
+                if (st.get("doc") is not None or st.get("table") is not None) and st["text"].endswith(":"):
+                    st["text"] = st["text"][:-1]
+                    mon.seen("strip_trailing_colon", "double" if st["text"].endswith(":") else "single")
+        case["strip_steps_with_trailing_colon"] = True
+        P.Parser.STRIP_STEPS_WITH_TRAILING_COLON = True
+    try:
+        return _check_doc(mon, lab, lang, kws, rng, a, text, lines, case, monitor, via_file, sample)
+    finally:
+        P.Parser.STRIP_STEPS_WITH_TRAILING_COLON = saved_strip
+
+
+def _check_doc(mon, lab, lang, kws, rng, a, text, lines, case, monitor, via_file, sample):
+    mon.case((text, bool(case.get("strip_steps_with_trailing_colon"))), count_elems(a) >= 3)
     mon.seen("language", lang)
     try:
         if via_file:
@@ -365,6 +402,44 @@ def install_state_recorder(mon):
     P.Parser.action = action
 
 
+COLON_DOC = u"""Feature: F
+  Scenario: S
+    Given a table::
+      | h |
+      | 1 |
+    When a text:
+      \"\"\"
+      body
+      \"\"\"
+    Then no argument:
+    And namespace std::
+      | h |
+"""
+
+
+def colon_option_in_fresh_interpreters(mon):
+    """The switch is an environment variable read when behave.parser is imported: one fresh interpreter per setting."""
+    import json
+    import subprocess
+    import sys
+    from ..core import REPO
+    prog = ("import sys, json; from behave.parser import parse_feature; f = parse_feature(sys.stdin.read()); "
+            "print(json.dumps([s.name for sc in f.scenarios for s in sc.steps]))")
+    plain = ["a table::", "a text:", "no argument:", "namespace std::"]
+    for setting, want in ((None, plain), ("no", plain), ("yes", ["a table:", "a text", "no argument:", "namespace std:"]), ("true", plain), ("", plain)):
+        env = dict(os.environ, PYTHONPATH=REPO)
+        env.pop("BEHAVE_STRIP_STEPS_WITH_TRAILING_COLON", None)
+        if setting is not None:
+            env["BEHAVE_STRIP_STEPS_WITH_TRAILING_COLON"] = setting
+        mon.case(("colon-option-process", setting), True)
+        try:
+            p = subprocess.run([sys.executable, "-c", prog], input=COLON_DOC, capture_output=True, text=True, env=env, timeout=120)
+            got = json.loads(p.stdout.strip().splitlines()[-1]) if p.returncode == 0 else "rc=%d %s" % (p.returncode, p.stderr[-300:])
+        except Exception as ex:
+            got = repr(ex)
+        mon.check("option.strip_trailing_colon_process", got == want, lambda: dict(setting=setting, got=got, want=want, document=COLON_DOC))
+
+
 def run(spec, mon):
     from behave import parser as P, i18n
     install_state_recorder(mon)
@@ -393,7 +468,9 @@ def run(spec, mon):
     for i in range(n):
         lang = "en" if i % 3 == 0 else rng.choice(langs)
         check_doc(mon, lab, lang, i18n.languages[lang], rng, layout=(i % 4 != 0), via_file=False,
-                  sample=(i == 1 and shard == 0))
+                  sample=(i == 1 and shard == 0), strip_colon=(i % 6 == 5), monitor=("option.strip_trailing_colon" if i % 6 == 5 else "parse.faithful"))
+    if shard == 0:
+        colon_option_in_fresh_interpreters(mon)
     for i in range(8 if tier == "quick" else 150):
         lang = rng.choice(langs)
         check_doc(mon, lab, lang, i18n.languages[lang], rng, layout=True, monitor="parse_file.language_header", via_file=True)
